@@ -27,7 +27,14 @@ def rand_schema(rng, depth=1):
     return {"type": rng.choice(["string", "integer", "number", "boolean"])}
 
 
-def rand_base(rng):
+def named_refs(p):
+    """the names of the @references a program declares"""
+    import re
+    return sorted(set(re.findall(r"let @([A-Za-z0-9_$-]+)", "\n".join(p["mods"].values()))))
+
+
+def rand_base(rng, names=()):
+    """names: names of schema components of the program the base will be merged with (a base may define the same names)"""
     b = {"openapi": rng.choice(["3.0.0", "3.0.1", "3.0.3"]),
          "info": {"title": "T%d" % rng.randrange(100), "version": "%d.0" % rng.randrange(9)}}
     if rng.random() < 0.5:
@@ -59,6 +66,9 @@ def rand_base(rng):
         if rng.random() < 0.6:
             c["schemas"] = {"Legacy": rand_schema(rng, 0) if rng.random() < 0.5 else {"type": "string"},
                             "Other": {"type": "integer"}}
+            for nm in names:
+                if rng.random() < 0.5:      # the same name as a component of the program: the program's definition wins
+                    c["schemas"][nm] = {"type": "string", "description": "stale definition of %s from the base" % nm}
             if legacy_ref:      # a closed base: its own path refers to its own schema (both are replaced by the program's)
                 b["paths"]["/legacy"]["get"]["responses"]["200"]["content"] = {"application/json": {"schema": {"$ref": "#/components/schemas/Legacy"}}}
         if rng.random() < 0.6:
@@ -134,7 +144,7 @@ def check(ctx):
         for i in range(5, n, 25):
             ps[i] = {"mods": {"file:///w/main.oal": "# tags: [t1, extra]\nlet o = get -> <{}>;\nres /tagged%d on o;\n" % i},
                      "main": "file:///w/main.oal", "features": ["op-tags"], "ast": None}
-        bases = [rand_base(ctx.rng) for _ in ps]
+        bases = [rand_base(ctx.rng, named_refs(p)) for p in ps]
         for i in (0, 1, 5, 10, 11):        # a base with every section of the format, against each kind of program
             if i < len(bases):
                 bases[i] = json.loads(json.dumps(FULL_BASE))
